@@ -5,6 +5,7 @@ package c18
 
 import (
 	"context"
+	"runtime"
 	"encoding/json"
 	"errors"
 	"fmt"
@@ -107,6 +108,19 @@ type failure struct {
 var onLeak func(string)
 
 func run(t *testing.T, sc scenario, plan []fault) (res result, fail *failure, harness string, leak string) {
+	defer func() {
+		if r := recover(); r != nil { // synctest: goroutines left blocked in the bubble
+			buf := make([]byte, 1<<20)
+			buf = buf[:runtime.Stack(buf, true)]
+			var left []string
+			for _, g := range strings.Split(string(buf), "\n\n") {
+				if strings.Contains(g, "synctest bubble") {
+					left = append(left, g)
+				}
+			}
+			harness = fmt.Sprintf("bubble did not end: %v\n%s", r, strings.Join(left, "\n\n"))
+		}
+	}()
 	leak = e2.Run(t, func(w *e2.World) {
 		w.OnLeak = onLeak
 		bad := func(key, format string, a ...any) {
@@ -117,6 +131,22 @@ func run(t *testing.T, sc scenario, plan []fault) (res result, fail *failure, ha
 		var mu sync.Mutex
 		var log []deliv
 		seq := 0
+		// Both ends sending W-bit primaries means every end has TWO writers (its own primary and
+		// the reply to the other's). The core serialises writers with a sync.Mutex held across the
+		// whole line transaction, and a goroutine parked in Mutex.Lock is not "durably blocked"
+		// for synctest: virtual time would stop. In that scenario the application therefore
+		// serialises its own writes (primaries and replies go out with the synchronous
+		// ForwardDataMessage, one at a time per end); everywhere else the handler answers inline
+		// with ReplyDataMessage.
+		serialized := sc.Dirs == "both" && sc.W
+		sem := map[string]chan struct{}{"E": make(chan struct{}, 1), "H": make(chan struct{}, 1)}
+		replyQ := map[string]chan *hsms.DataMessage{"E": make(chan *hsms.DataMessage, 16), "H": make(chan *hsms.DataMessage, 16)}
+		tokenOf := func(body []byte) string {
+			if len(body) < payloadLen[sc.Blocks] {
+				return "??"
+			}
+			return string(body[len(body)-payloadLen[sc.Blocks]:][:2])
+		}
 		handler := func(at string) func(*hsms.DataMessage, hsms.SECS2Endpoint) {
 			return func(m *hsms.DataMessage, ep hsms.SECS2Endpoint) {
 				body := m.AppendBodyTo(nil)
@@ -125,8 +155,14 @@ func run(t *testing.T, sc scenario, plan []fault) (res result, fail *failure, ha
 				log = append(log, deliv{at: at, seq: seq, msg: m, body: body})
 				mu.Unlock()
 				if m.WaitBit() && m.Stream() == 1 && len(body) >= payloadLen[sc.Blocks] {
-					tok := string(body[len(body)-payloadLen[sc.Blocks]:][:2])
-					_ = ep.ReplyDataMessage(context.Background(), m, secs2.NewBinaryItem(replyPayload(tok)))
+					if serialized {
+						select {
+						case replyQ[at] <- m:
+						default:
+						}
+						return
+					}
+					_ = ep.ReplyDataMessage(context.Background(), m, secs2.NewBinaryItem(replyPayload(tokenOf(body))))
 				}
 			}
 		}
@@ -139,6 +175,8 @@ func run(t *testing.T, sc scenario, plan []fault) (res result, fail *failure, ha
 		defer func() {
 			_ = E.Close()
 			_ = H.Close()
+			close(replyQ["E"])
+			close(replyQ["H"])
 			mb.shutdown()
 			for p := w.Net.TakePeer(); p != nil; p = w.Net.TakePeer() {
 				_ = p.Close()
@@ -227,22 +265,80 @@ func run(t *testing.T, sc scenario, plan []fault) (res result, fail *failure, ha
 				sends = append(sends, r)
 			}
 			calls = append(calls, w.Go(func() {
-				for _, r := range mine {
+				for k, r := range mine {
 					item := secs2.NewBinaryItem(payload(r.Tok, sc.Blocks))
-					rep, err := node.C.SendDataMessage(context.Background(), 1, 1, sc.W, item)
+					var rep *hsms.DataMessage
+					var err error
+					if serialized {
+						sys := [4]byte{0xA0, 0, 0, byte(k + 1)}
+						if side == "H" {
+							sys[0] = 0xB0
+						}
+						var dm *hsms.DataMessage
+						if dm, err = hsms.NewDataMessage(1, 1, true, device, sys, item); err == nil {
+							sem[side] <- struct{}{}
+							err = node.C.ForwardDataMessage(context.Background(), dm)
+							<-sem[side]
+						}
+						if err == nil { // the reply comes to the handlers: wait for it like a T3
+							err = hsms.ErrT3Timeout
+							want := secs2.NewBinaryItem(replyPayload(r.Tok)).ToBytes()
+							for i := 0; i < int(t3/stepDur) && err != nil; i++ {
+								mu.Lock()
+								for _, d := range log {
+									if d.at == side && d.msg.Function() == 2 && string(d.body) == string(want) {
+										err = nil
+									}
+								}
+								mu.Unlock()
+								if err != nil {
+									time.Sleep(stepDur)
+								}
+							}
+						}
+					} else {
+						rep, err = node.C.SendDataMessage(context.Background(), 1, 1, sc.W, item)
+					}
 					mu.Lock()
 					r.reply, r.err, r.Done = rep, err, true
 					if err != nil {
 						r.Err = err.Error()
 					}
 					mu.Unlock()
-					if err != nil { // an application would wait for the link before its next message
-						for i := 0; i < int(relink/stepDur) && node.C.State() != hsms.SelectedState; i++ {
+					if err != nil {
+						// an application would wait for the link before its next message; the harness also
+						// lets library-generated notices (S9F9 after a T3 timeout) leave first, because two
+						// concurrent writers on one connection stop virtual time (see `serialized`)
+						time.Sleep(15 * time.Millisecond)
+						d := dEH
+						if side == "H" {
+							d = dHE
+						}
+						for i := 0; i < int(relink/stepDur) && (node.C.State() != hsms.SelectedState || mb.busy(d)); i++ {
 							time.Sleep(stepDur)
 						}
 					}
 				}
 			}))
+		}
+		if serialized {
+			for _, side := range []string{"E", "H"} {
+				node := E
+				if side == "H" {
+					node = H
+				}
+				w.Go(func() {
+					for m := range replyQ[side] {
+						rep, err := hsms.NewDataMessage(m.Stream(), m.Function()+1, false, device, m.SystemBytes(), secs2.NewBinaryItem(replyPayload(tokenOf(m.AppendBodyTo(nil)))))
+						if err != nil {
+							continue
+						}
+						sem[side] <- struct{}{}
+						_ = node.C.ForwardDataMessage(context.Background(), rep)
+						<-sem[side]
+					}
+				})
+			}
 		}
 		allDone := func() bool {
 			for _, c := range calls {
@@ -287,10 +383,10 @@ func run(t *testing.T, sc scenario, plan []fault) (res result, fail *failure, ha
 			harness = "middlebox could not parse the line: " + strings.Join(parseErrs, "; ")
 			return
 		}
-		var chunks [2][]sim.Chunk
+		var chunks [2][][]sim.Chunk
 		for d := 0; d < 2; d++ {
 			for _, c := range socks[d] {
-				chunks[d] = append(chunks[d], c.Received()...)
+				chunks[d] = append(chunks[d], c.Received())
 			}
 		}
 		if why := mb.checkChunks(chunks); why != "" {
@@ -371,9 +467,9 @@ func run(t *testing.T, sc scenario, plan []fault) (res result, fail *failure, ha
 				bad("duplicate-reply", "%s: the reply to %s was delivered %d times", where, r.Tok, nrep)
 			}
 			if sc.W && r.err == nil {
-				if r.reply == nil {
-					bad("reply-missing", "%s: the W-bit send of %s returned neither a reply nor an error", where, r.Tok)
-				} else {
+				if nrep != 1 {
+					bad("reply-missing", "%s: the W-bit send of %s returned without error but %d replies reached the sender", where, r.Tok, nrep)
+				} else if r.reply != nil {
 					want := secs2.NewBinaryItem(replyPayload(r.Tok)).ToBytes()
 					if got := r.reply.AppendBodyTo(nil); string(got) != string(want) || r.reply.Function() != 2 || r.reply.Stream() != 1 || r.reply.WaitBit() {
 						bad("altered-reply", "%s: the reply to %s is S%dF%d body %x, the handler sent S1F2 body %x", where, r.Tok, r.reply.Stream(), r.reply.Function(), got, want)
@@ -675,7 +771,14 @@ func check(c *vfw.Ctx, t *testing.T, sc scenario, plan []fault) {
 		c.Violate("goroutine-leak", fmt.Sprintf("library goroutines alive 2 virtual minutes after Close, scenario %s plan %v:\n%s", sc, plan, stacks[:min(len(stacks), 1500)]), rc)
 		c.Abort("goroutine leak wedged the bubble")
 	}
+	// safety net (real time, outside the bubble): a goroutine parked in sync.Mutex.Lock while
+	// everything else waits for virtual time wedges a synctest bubble for good
+	wd := time.AfterFunc(90*time.Second, func() {
+		c.HarnessError("bubble wedged for 90 s of real time (two concurrent writers on one connection?): %s plan %v", sc, plan)
+		c.Abort("bubble wedged")
+	})
 	res, fail, harness, leak := run(t, sc, plan)
+	wd.Stop()
 	applied := 0
 	for _, u := range res.trace {
 		if u.Applied != "" {
